@@ -264,6 +264,7 @@ func TestClean(t *testing.T) {
 				// whatever it does accept must come out well-formed and readable
 				b := lb.ToRepo()
 				what := "b1 bundle without a primary URL"
+				twinValue := ""
 				if lb.Version == "b1" && c.Bool("bundle.oddInput.noPrimary") {
 					b.PrimaryURL = nil
 				} else if len(b.Exchanges) > 0 {
@@ -271,7 +272,12 @@ func TestClean(t *testing.T) {
 					what = "case-colliding header names with equal values"
 					h := b.Exchanges[c.Pick("bundle.oddInput.at", len(b.Exchanges))].Response.Header
 					h["X-Same"] = []string{"same"}
-					h[c.PickStr("bundle.oddInput.twin", "x-same", "X-SAME", "x-Same")] = []string{"same"}
+					twinValue = "same"
+					if c.Bool("bundle.oddInput.otherValue") {
+						twinValue = "other"
+						what = "case-colliding header names with different values"
+					}
+					h[c.PickStr("bundle.oddInput.twin", "x-same", "X-SAME", "x-Same")] = []string{twinValue}
 					if c.Bool("bundle.oddInput.pseudo") {
 						h[":status"] = []string{"200"}
 					}
@@ -287,8 +293,21 @@ func TestClean(t *testing.T) {
 					wr := written{data: core.Unwrap(w).Accepted, n: n}
 					checkWellFormed(c, wr, what)
 					if c.Oracle("C03") {
-						if _, rerr, _, _, _ := readBundle(c, wr.data, core.ReaderPlan{ErrAt: -1}); rerr != nil {
+						rb2, rerr, _, _, _ := readBundle(c, wr.data, core.ReaderPlan{ErrAt: -1})
+						if rerr != nil {
 							c.Violation("read-error", "bundle.Read", "writer accepted %s and produced a file the reader rejects: %v", what, rerr)
+						}
+						if twinValue != "" && rb2 != nil {
+							// nothing dropped: if the writer took both lines, both values are in the file
+							found := false
+							for _, ex := range rb2.Exchanges {
+								if v := strings.Join(ex.Response.Header["X-Same"], ","); strings.Contains(v, "same") && strings.Contains(v, twinValue) && (twinValue != "same" || strings.Count(v, "same") >= 2) {
+									found = true
+								}
+							}
+							if !found {
+								c.Violation("roundtrip-headers", "odd-input", "writer accepted %s, but the file does not hold both values", what)
+							}
 						}
 					}
 				}
@@ -507,6 +526,10 @@ func TestWriterFaults(t *testing.T) {
 				if wr.n != int64(len(wr.data)) {
 					c.Violation("count-mismatch", "Bundle.WriteTo", "returned count %d, destination accepted %d bytes (fail at %d)", wr.n, len(wr.data), plan.FailAt)
 				}
+			}
+			if wr.err == nil && wr.panicI == nil {
+				// whatever is emitted WITHOUT error is a well-formed bundle, device trouble or not
+				checkWellFormed(c, wr, "no error reported under a device fault")
 			}
 			if c.Oracle("C19") {
 				if plan.FailAt < len(full) && wr.err == nil {
@@ -809,6 +832,14 @@ func TestStorageFaults(t *testing.T) {
 						if len(ex.Response.Body) > 0 {
 							ex.Response.Body[0] ^= 0xff
 						}
+						if ex.Request.URL != nil {
+							// ... and rebases the URLs onto a mirror, in place
+							ex.Request.URL.Host = "mirror.invalid"
+							ex.Request.URL.Path += "/rebased"
+						}
+					}
+					if rb0.PrimaryURL != nil {
+						rb0.PrimaryURL.Host = "mirror.invalid"
 					}
 					rb1, err1, pi1, alloc1, _ := readBundle(c, data, core.ReaderPlan{ErrAt: -1})
 					judgeRead(c, data, rb1, err1, pi1, alloc1, "bundle.Read/reread-after-caller-modified-earlier-result")
@@ -856,7 +887,7 @@ func TestReencode(t *testing.T) {
 				return
 			}
 			secs := p.RawSections(data)
-			op := c.PickStr("reencode.op", "unknown-section", "unknown-section", "reorder", "duplicate", "drop", "identity", "unknown-wrap", "length-cancel", "alias-index", "alias-index", "foreign-known-section", "variants-axes", "status-text", "head-of-other-version", "many-unknown-sections")
+			op := c.PickStr("reencode.op", "unknown-section", "unknown-section", "reorder", "duplicate", "drop", "identity", "unknown-wrap", "length-cancel", "alias-index", "alias-index", "foreign-known-section", "variants-axes", "status-text", "head-of-other-version", "many-unknown-sections", "index-wrap-decoy", "alias-key-spelling")
 			switch op {
 			case "unknown-section":
 				pos := c.Int("reencode.pos", 0, len(secs)-1) // anywhere before "responses"
@@ -940,7 +971,15 @@ func TestReencode(t *testing.T) {
 					axes = append(axes, fmt.Sprintf("A%d;%s", i, strings.Join([]string{"x", "y", "z"}[:nv], ";")))
 				}
 				ents[a].Variants = []byte(strings.Join(axes, ", "))
-				if c.Chance("reencode.variantsGarbage", 1, 3) {
+				amplify := k >= 2 && k <= 13 && c.Chance("reencode.variantsAmplify", 1, 2)
+				if amplify {
+					// one more axis with a single value tens of kilobytes long, and a (valid) location
+					// for every possible key: a small file whose index, if it keeps one key string per
+					// location, occupies possible-keys x value-length bytes
+					axes = append(axes, "Long;"+strings.Repeat("v", c.PickInt("reencode.longValue", 1<<14, 1<<15)))
+					ents[a].Variants = []byte(strings.Join(axes, ", "))
+				}
+				if c.Chance("reencode.variantsGarbage", 1, 3) && !amplify {
 					// a variants-value that strains the structured-header grammar instead
 					frags := []string{"\"", "\\", ";", ",", " ", "*", "a", "Accept-Language", "\"\"", "\"a;b\"", "\xc3\xa9", "\x00", "=", "9999999999999999999999", ";;", ",,", "a;\"", "\t"}
 					var sb strings.Builder
@@ -957,6 +996,16 @@ func TestReencode(t *testing.T) {
 				switch c.Pick("reencode.axesLocs", 4) {
 				case 0:
 					locs = nil
+					if amplify {
+						n := 1 << uint(k)
+						if len(axes) > 0 && strings.HasSuffix(axes[k-1], ";z") {
+							n = n / 2 * 3
+						}
+						first := ents[a].Locs[0]
+						for i := 0; i < n; i++ {
+							locs = append(locs, first)
+						}
+					}
 				case 1:
 					locs = locs[:1]
 				case 2:
@@ -970,6 +1019,67 @@ func TestReencode(t *testing.T) {
 				}
 				c.Fault("reencode-variants-axes")
 				c.Event("index entry %d: variants-value with %d axes, %d locations", a, k, len(locs))
+			case "index-wrap-decoy":
+				// an index entry whose offset is 2^64-k and whose length is k or more: offset+length
+				// wraps around to a small number, and offset itself points k bytes IN FRONT of the
+				// responses section - where an unknown section holds a decoy response
+				if len(p.Index) == 0 || len(secs) < 1 {
+					op = "identity"
+					break
+				}
+				{
+					ents := append([]refbundle.IndexEntry(nil), p.Index...)
+					a := c.Pick("reencode.a", len(ents))
+					rs := p.ResponsesSection()
+					la := ents[a].Locs[0]
+					decoy := append([]byte(nil), data[rs.Off+int(la.Off):rs.Off+int(la.Off)+int(la.Len)]...)
+					k := uint64(len(decoy))
+					bI := c.Pick("reencode.b", len(ents))
+					locs := append([]refbundle.Loc(nil), ents[bI].Locs...)
+					locs[0] = refbundle.Loc{Off: -k, Len: k + uint64(c.PickInt("reencode.wrapExtra", 0, 0, 1, 8))}
+					ents[bI].Locs = locs
+					for i := range secs {
+						if secs[i].Name == "index" {
+							secs[i].Data = refbundle.EncodeIndex(p.Version, ents)
+						}
+					}
+					ns := append([]refbundle.RawSection{}, secs[:len(secs)-1]...)
+					ns = append(ns, refbundle.RawSection{Name: "decoy", Data: decoy})
+					secs = append(ns, secs[len(secs)-1])
+					c.Fault("reencode-index-offset-wraps-onto-a-decoy")
+				}
+			case "alias-key-spelling":
+				// (b2) one more index entry whose key is another spelling of an existing key - equal
+				// once a URL library has normalised it, different as bytes - pointing at ANOTHER response
+				if p.Version != "b2" || len(p.Index) < 2 {
+					op = "identity"
+					break
+				}
+				{
+					ents := append([]refbundle.IndexEntry(nil), p.Index...)
+					a := c.Pick("reencode.a", len(ents))
+					bI := (a + 1 + c.Pick("reencode.b", len(ents)-1)) % len(ents)
+					key := ents[a].URL
+					switch {
+					case strings.HasPrefix(key, "https://"):
+						key = "HTTPS://" + key[8:]
+					case strings.HasPrefix(key, "http://"):
+						key = "HTTP://" + key[7:]
+					default:
+						key += "#"
+					}
+					if c.Bool("reencode.aliasLiteral") {
+						key = ents[a].URL // a literally repeated key
+					}
+					ents = append(ents, refbundle.IndexEntry{URL: key, Locs: ents[bI].Locs})
+					for i := range secs {
+						if secs[i].Name == "index" {
+							secs[i].Data = refbundle.EncodeIndex(p.Version, ents)
+						}
+					}
+					c.Fault("reencode-aliased-index-key")
+					c.Event("index key %q added, pointing at entry %d's response", key, bI)
+				}
 			case "alias-index":
 				// two index entries designate the same offset; the second with the same or a
 				// different length (legal aliasing when equal, an inconsistent entry otherwise)
